@@ -56,21 +56,44 @@ Dom pointee_dom(Dom d) { return d == D_PS ? D_S : D_INT; }
 bool is_set(Kind k) { return k == K_ANYOF || k == K_ALLOF || k == K_NONEOF; }
 bool is_comb(Kind k) { return k == K_NOT || k == K_DEREF || is_set(k) || k == K_MEMBER; }
 
-// Where a plain value may be handed to a set predicate directly. The same function drives the static
-// instantiation (if constexpr) and the run-time normalisation of generated trees, so rendering == what is built.
-constexpr bool plain_pos_ok(Dom d, size_t pos, bool typed) {
+// Which static operand signatures of any_of/all_of/none_of are instantiated (every one is a distinct library type and
+// costs compile time). mask bit i set = operand i is handed over as a plain value, otherwise as a type-erased sub-matcher.
+// The same function drives the static instantiation (if constexpr) and the run-time normalisation of generated trees,
+// so what is rendered is what is built.
+constexpr size_t max_arity(Dom d) { return d == D_INT ? 4 : d == D_STR ? 3 : 2; }
+constexpr bool sig_ok(Dom d, bool typed, size_t n, unsigned mask) {
+  if (n < 1 || n > max_arity(d)) return false;
   switch (d) {
-    case D_INT: return true;
-    case D_STR: return pos < 2 && !typed;
-    case D_CSTR: return pos < 2;  // pos 0: nullptr, pos 1: std::string (only ever generated behind a null guard)
-    default: return pos == 0 && !typed;
+    case D_INT:
+      if (mask == 0) return true;
+      if (!typed) return (n == 1 && mask == 1) || (n == 2) || (n == 3 && (mask == 2 || mask == 7)) || (n == 4 && mask == 15);
+      return (n == 2 && mask == 3) || (n == 3 && mask == 7);
+    case D_STR:
+      if (typed) return n == 2 && mask == 0;
+      return mask == 0 || (n == 2 && mask == 1);
+    case D_CSTR:  // operand 0 plain: nullptr; operand 1 plain: std::string (only ever generated behind a null guard)
+      if (mask == 0) return !typed || n == 2;
+      if (n != 2) return false;
+      return mask == 1 ? !typed : typed;
+    case D_PINT:
+      return !typed && (mask == 0 || (n == 2 && mask == 1));
+    default:
+      return !typed && mask == 0;
   }
 }
-bool kid_plain_ok(Dom d, size_t pos, bool typed, const Node& kid) {
-  if (kid.k != K_VALUE || !kid.direct || !plain_pos_ok(d, pos, typed)) return false;
-  if (d == D_CSTR) return (pos == 0 && kid.form == 0) || (pos == 1 && kid.form == 1);
+constexpr bool prefix_viable(Dom d, bool typed, size_t len, unsigned prefix) {
+  for (size_t n = len < 1 ? 1 : len; n <= 4; ++n)
+    for (unsigned m = 0; m < (1u << n); ++m)
+      if ((m & ((1u << len) - 1)) == prefix && sig_ok(d, typed, n, m)) return true;
+  return false;
+}
+// explicit type spelling instantiated for this leaf?
+bool leaf_typed_ok(Dom d, Kind k, int form) {
+  if (k == K_REL) return d == D_INT || d == D_S || (d == D_STR && form == 0);
+  if (k == K_NULLCMP) return d == D_PINT || d == D_CSTR;
   return true;
 }
+bool kid_is_plain_candidate(Dom d, size_t pos, const Node& kid);
 
 // ---- canonical s-expression (replay format and hash input) ----
 void sexpr(const Node& n, std::string& o) {
@@ -154,7 +177,7 @@ bool valid(const Node& n, Dom d, bool safe /* char const* known to be non-null h
     case K_DEREF: return kids == 1 && is_ptr_dom(d) && valid(n.kids[0], pointee_dom(d), false);
     case K_MEMBER: return kids == 1 && d == D_S && (n.member == 0 || n.member == 1) && valid(n.kids[0], n.member == 0 ? D_INT : D_STR, false);
     case K_ANYOF: case K_ALLOF: case K_NONEOF: {
-      if (kids < 1 || kids > 4) return false;  // zero operands: undocumented, never built
+      if (kids < 1 || kids > max_arity(d)) return false;  // zero operands: undocumented, never built
       bool s = safe;
       for (size_t i = 0; i < kids; ++i) {
         if (!valid(n.kids[i], d, s)) return false;
@@ -170,15 +193,34 @@ bool valid(const Node& n, Dom d, bool safe /* char const* known to be non-null h
   }
 }
 
+bool kid_is_plain_candidate(Dom d, size_t pos, const Node& kid) {
+  if (kid.k != K_VALUE || !kid.direct) return false;
+  if (d == D_CSTR) return (pos == 0 && kid.form == 0) || (pos == 1 && kid.form == 1);
+  return true;
+}
+unsigned set_mask(const Node& n, Dom d) {
+  unsigned m = 0;
+  for (size_t i = 0; i < n.kids.size(); ++i) if (kid_is_plain_candidate(d, i, n.kids[i])) m |= 1u << i;
+  return m;
+}
 // drop spellings that the builder does not instantiate, so that what is rendered is what runs
 void normalise(Node& n, Dom d) {
   if (n.k == K_DEREF) { normalise(n.kids[0], pointee_dom(d)); n.kids[0].direct = false; return; }
   if (n.k == K_MEMBER) { normalise(n.kids[0], n.member == 0 ? D_INT : D_STR); return; }  // MEMBER_IS(&S::m, value) is documented
   if (n.k == K_NOT) { normalise(n.kids[0], d); n.kids[0].direct = false; return; }
+  if ((n.k == K_REL || n.k == K_NULLCMP) && !leaf_typed_ok(d, n.k, n.form)) n.typed = false;
   if (is_set(n.k)) {
     for (size_t i = 0; i < n.kids.size(); ++i) {
       normalise(n.kids[i], d);
-      if (n.kids[i].k == K_VALUE && !kid_plain_ok(d, i, n.typed, n.kids[i])) n.kids[i].direct = false;
+      if (n.kids[i].k == K_VALUE && !kid_is_plain_candidate(d, i, n.kids[i])) n.kids[i].direct = false;
+    }
+    unsigned m = set_mask(n, d);
+    size_t k = n.kids.size();
+    if (!sig_ok(d, n.typed, k, m)) {
+      if (sig_ok(d, n.typed, k, 0)) m = 0;
+      else if (sig_ok(d, false, k, m)) n.typed = false;
+      else { n.typed = false; m = 0; }
+      for (size_t i = 0; i < k; ++i) if (!(m & (1u << i))) n.kids[i].direct = false;
     }
   }
 }
@@ -357,17 +399,17 @@ struct Holder : HolderBase<V> {
 // greedy forwarding constructors that hijack copies of non-const objects)
 template <typename V, typename M>
 DM<V> wrap(M m, const Node& n) {
-  auto hp = std::make_shared<Holder<V, M>>(std::move(m));
-  hp->desc = pretty(n, Tr<V>::dom);
-  std::shared_ptr<HolderBase<V>> h = std::move(hp);
+  HolderBase<V>* raw = new Holder<V, M>(std::move(m));  // one shared_ptr instantiation per V, not per M (compile time)
+  std::shared_ptr<HolderBase<V>> h(raw);
+  h->desc = pretty(n, Tr<V>::dom);
   return trompeloeil::make_matcher<V>(DPred<V>{}, DPrint<V>{}, std::move(h));
 }
 
 template <typename V> DM<V> build(const Node& n);
 
-template <typename V, typename Opnd>
+template <typename V, bool ALLOW_TYPED, typename Opnd>
 DM<V> build_rel(const Node& n, Opnd const& v) {
-  if (n.typed) switch (n.rel) {
+  if constexpr (ALLOW_TYPED) if (n.typed) switch (n.rel) {
     case R_EQ: return wrap<V>(trompeloeil::eq<V>(v), n);
     case R_NE: return wrap<V>(trompeloeil::ne<V>(v), n);
     case R_LT: return wrap<V>(trompeloeil::lt<V>(v), n);
@@ -384,9 +426,9 @@ DM<V> build_rel(const Node& n, Opnd const& v) {
     default: return wrap<V>(trompeloeil::ge(v), n);
   }
 }
-template <typename V, typename Opnd>
+template <typename V, bool ALLOW_TYPED, typename Opnd>
 DM<V> build_eqne(const Node& n, Opnd const& v) {
-  if (n.typed) return n.rel == R_EQ ? wrap<V>(trompeloeil::eq<V>(v), n) : wrap<V>(trompeloeil::ne<V>(v), n);
+  if constexpr (ALLOW_TYPED) if (n.typed) return n.rel == R_EQ ? wrap<V>(trompeloeil::eq<V>(v), n) : wrap<V>(trompeloeil::ne<V>(v), n);
   return n.rel == R_EQ ? wrap<V>(trompeloeil::eq(v), n) : wrap<V>(trompeloeil::ne(v), n);
 }
 template <typename V>
@@ -435,20 +477,27 @@ DM<V> finish_set(const Node& n, Ops&&... ops) {
     else return wrap<V>(trompeloeil::none_of(std::move(ops)...), n);
   }
 }
-template <typename V, int CK, bool TYPED, typename... Ops>
-DM<V> build_set(const Node& n, Ops&&... ops) {
+template <typename V, int CK, bool TYPED, unsigned MASK, typename... Ops>
+DM<V> build_set(const Node& n, unsigned want, Ops&&... ops) {
   constexpr size_t pos = sizeof...(Ops);
-  if (pos == n.kids.size()) return finish_set<V, CK, TYPED>(n, std::move(ops)...);
-  if constexpr (pos < 4) {
-    const Node& kid = n.kids[pos];
-    if constexpr (plain_pos_ok(Tr<V>::dom, pos, TYPED)) {
-      if (kid_plain_ok(Tr<V>::dom, pos, TYPED, kid))
-        return with_plain<V, pos>(kid, [&](auto pv) { return build_set<V, CK, TYPED>(n, std::move(ops)..., std::move(pv)); });
-    }
-    return build_set<V, CK, TYPED>(n, std::move(ops)..., build<V>(kid));
-  } else {
-    abort();
+  constexpr Dom d = Tr<V>::dom;
+  if constexpr (pos >= 1 && sig_ok(d, TYPED, pos, MASK)) {
+    if (pos == n.kids.size()) return finish_set<V, CK, TYPED>(n, std::move(ops)...);
   }
+  if constexpr (pos < 4) {
+    if (pos < n.kids.size()) {
+      const Node& kid = n.kids[pos];
+      if constexpr (prefix_viable(d, TYPED, pos + 1, MASK | (1u << pos))) {
+        if (want & (1u << pos))
+          return with_plain<V, pos>(kid, [&](auto pv) { return build_set<V, CK, TYPED, (MASK | (1u << pos))>(n, want, std::move(ops)..., std::move(pv)); });
+      }
+      if constexpr (prefix_viable(d, TYPED, pos + 1, MASK)) {
+        if (!(want & (1u << pos))) return build_set<V, CK, TYPED, MASK>(n, want, std::move(ops)..., build<V>(kid));
+      }
+    }
+  }
+  fprintf(stderr, "m_main: operand signature not instantiated (normalise() and sig_ok() disagree)\n");
+  exit(2);
 }
 
 template <typename V>
@@ -458,9 +507,9 @@ DM<V> build(const Node& n) {
     case K_WILD: return wrap<V>(trompeloeil::_, n);
     case K_ANY: return wrap<V>(ANY(V), n);
     case K_NOT: return wrap<V>(!build<V>(n.kids[0]), n);
-    case K_ANYOF: return n.typed ? build_set<V, K_ANYOF, true>(n) : build_set<V, K_ANYOF, false>(n);
-    case K_ALLOF: return n.typed ? build_set<V, K_ALLOF, true>(n) : build_set<V, K_ALLOF, false>(n);
-    case K_NONEOF: return n.typed ? build_set<V, K_NONEOF, true>(n) : build_set<V, K_NONEOF, false>(n);
+    case K_ANYOF: return n.typed ? build_set<V, K_ANYOF, true, 0u>(n, set_mask(n, d)) : build_set<V, K_ANYOF, false, 0u>(n, set_mask(n, d));
+    case K_ALLOF: return n.typed ? build_set<V, K_ALLOF, true, 0u>(n, set_mask(n, d)) : build_set<V, K_ALLOF, false, 0u>(n, set_mask(n, d));
+    case K_NONEOF: return n.typed ? build_set<V, K_NONEOF, true, 0u>(n, set_mask(n, d)) : build_set<V, K_NONEOF, false, 0u>(n, set_mask(n, d));
     case K_VALUE: return with_plain<V, 0>(n, [&](auto pv) {
       if constexpr (d == D_CSTR) { if (n.form == 1) return wrap<V>(std::string(POOL[n.sv]), n); }
       return wrap<V>(std::move(pv), n);
@@ -468,16 +517,16 @@ DM<V> build(const Node& n) {
     default: break;
   }
   if constexpr (d == D_INT) {
-    if (n.k == K_REL) return build_rel<V>(n, n.iv);
+    if (n.k == K_REL) return build_rel<V, true>(n, n.iv);
   } else if constexpr (d == D_STR) {
-    if (n.k == K_REL) return n.form == 1 ? build_rel<V>(n, POOL[n.sv]) : build_rel<V>(n, std::string(POOL[n.sv]));
+    if (n.k == K_REL) return n.form == 1 ? build_rel<V, false>(n, POOL[n.sv]) : build_rel<V, true>(n, std::string(POOL[n.sv]));
     if (n.k == K_RE) return build_re<V>(n);
   } else if constexpr (d == D_CSTR) {
-    if (n.k == K_REL) return build_rel<V>(n, std::string(POOL[n.sv]));
+    if (n.k == K_REL) return build_rel<V, false>(n, std::string(POOL[n.sv]));
     if (n.k == K_RE) return build_re<V>(n);
-    if (n.k == K_NULLCMP) return build_eqne<V>(n, nullptr);
+    if (n.k == K_NULLCMP) return build_eqne<V, true>(n, nullptr);
   } else if constexpr (d == D_S) {
-    if (n.k == K_REL) return build_eqne<V>(n, S{n.iv, POOL[n.sv]});
+    if (n.k == K_REL) return build_eqne<V, true>(n, S{n.iv, POOL[n.sv]});
     if (n.k == K_MEMBER) {
       const Node& kid = n.kids[0];
       if (n.member == 0) {
@@ -488,7 +537,7 @@ DM<V> build(const Node& n) {
       return wrap<V>(MEMBER_IS(&S::s, build<std::string>(kid)), n);
     }
   } else {  // pointers
-    if (n.k == K_NULLCMP) return build_eqne<V>(n, nullptr);
+    if (n.k == K_NULLCMP) return build_eqne<V, d == D_PINT>(n, nullptr);
     if (n.k == K_DEREF) return wrap<V>(*build<typename Tr<V>::pointee>(n.kids[0]), n);
   }
   fprintf(stderr, "m_main: node kind %s cannot be built in domain %s\n", KIND_KEY[n.k], DOM_NAME[d]);
@@ -705,43 +754,49 @@ bool check_typed(const Case& c, std::string& why, bool account) {
   }
   if (!why.empty()) return false;
 
-  // ---- algebraic laws, library against library ----
+  // ---- algebraic laws, library against library (composed matchers live as named prvalues, never copied) ----
   if (c.has_b) {
     DM<V> db = build<V>(c.b);
-    Node dummy; dummy.k = K_WILD;
-    auto W = [&](auto m) { return wrap<V>(std::move(m), dummy); };
-    struct Law { const char* name; DM<V> l, r; bool negate_r; };
-    std::vector<Law> laws;
-    laws.push_back({"!any_of(a,b) == none_of(a,b)", W(!trompeloeil::any_of(da, db)), W(trompeloeil::none_of(da, db)), false});
-    laws.push_back({"!!a == a", W(!!da), da, false});
-    laws.push_back({"all_of(a) == a", W(trompeloeil::all_of(da)), da, false});
-    laws.push_back({"any_of(a,b) == any_of(b,a)", W(trompeloeil::any_of(da, db)), W(trompeloeil::any_of(db, da)), false});
-    laws.push_back({"all_of(a,b) == all_of(b,a)", W(trompeloeil::all_of(da, db)), W(trompeloeil::all_of(db, da)), false});
-    laws.push_back({"none_of(a) == not a", W(trompeloeil::none_of(da)), da, true});
-    laws.push_back({"!all_of(a,b) == any_of(!a,!b)", W(!trompeloeil::all_of(da, db)), W(trompeloeil::any_of(W(!da), W(!db))), false});
-    for (auto& lw : laws) {
+    auto law = [&](const char* name, const auto& l, const auto& r, bool negate_r) {
       for (auto& v : vals) {
-        bool l = lib_eval<V>(lw.l, v), r = lib_eval<V>(lw.r, v);
-        if (lw.negate_r) r = !r;
-        if (l != r) {
-          why = std::string("law violated: ") + lw.name + "\na (" + DOM_NAME[d] + ") = " + pretty(c.a, d) + "\nb = " + pretty(c.b, d) + "\nvalue: " + val_str(d, v) +
-                "\nleft side: " + (l ? "accept" : "reject") + "   right side: " + (r ? "accept" : "reject");
+        bool lv = with_value<V>(v, [&](V& x) { return trompeloeil::param_matches(l, std::ref(x)); });
+        bool rv = with_value<V>(v, [&](V& x) { return trompeloeil::param_matches(r, std::ref(x)); });
+        if (negate_r) rv = !rv;
+        if (lv != rv) {
+          why = std::string("law violated: ") + name + "\na (" + DOM_NAME[d] + ") = " + pretty(c.a, d) + "\nb = " + pretty(c.b, d) + "\nvalue: " + val_str(d, v) +
+                "\nleft side: " + (lv ? "accept" : "reject") + "   right side: " + (rv ? "accept" : "reject");
           return false;
         }
       }
       if (account) ST.label("laws_checked");
-    }
+      return true;
+    };
+    auto any_ab = trompeloeil::any_of(da, db);
+    auto any_ba = trompeloeil::any_of(db, da);
+    auto all_ab = trompeloeil::all_of(da, db);
+    auto all_ba = trompeloeil::all_of(db, da);
+    auto none_ab = trompeloeil::none_of(da, db);
+    auto not_any_ab = !trompeloeil::any_of(da, db);
+    auto not_all_ab = !trompeloeil::all_of(da, db);
+    auto notnot_a = !!da;
+    auto all_a = trompeloeil::all_of(da);
+    auto none_a = trompeloeil::none_of(da);
+    auto any_na_nb = trompeloeil::any_of(!da, !db);
+    if (!law("!any_of(a,b) == none_of(a,b)", not_any_ab, none_ab, false)) return false;
+    if (!law("!!a == a", notnot_a, da, false)) return false;
+    if (!law("all_of(a) == a", all_a, da, false)) return false;
+    if (!law("any_of(a,b) == any_of(b,a)", any_ab, any_ba, false)) return false;
+    if (!law("all_of(a,b) == all_of(b,a)", all_ab, all_ba, false)) return false;
+    if (!law("none_of(a) == not a", none_a, da, true)) return false;
+    if (!law("!all_of(a,b) == any_of(!a,!b)", not_all_ab, any_na_nb, false)) return false;
   }
   // *m on null is false, !*m on null is true, for every pointer kind over this pointee
   if constexpr (d == D_INT || d == D_S) {
-    Node dummy; dummy.k = K_WILD;
-    auto null_law = [&](auto tag, const char* what) {
-      using P = typename decltype(tag)::type;
-      P np{};
-      auto star = std::make_shared<decltype(*da)>(*da);
-      auto nstar = std::make_shared<decltype(!*da)>(!*da);
-      bool s = trompeloeil::param_matches(*star, std::ref(np));
-      bool ns = trompeloeil::param_matches(*nstar, std::ref(np));
+    auto star = *da;
+    auto nstar = !*da;
+    auto null_law = [&](auto np, const char* what) {
+      bool s = trompeloeil::param_matches(star, std::ref(np));
+      bool ns = trompeloeil::param_matches(nstar, std::ref(np));
       if (s || !ns) {
         why = std::string("law violated: *m rejects null and !*m accepts null (") + what + ")\nm = " + pretty(c.a, d) + "\n*m on null: " + (s ? "accept" : "reject") + "   !*m on null: " + (ns ? "accept" : "reject");
         return false;
@@ -750,11 +805,11 @@ bool check_typed(const Case& c, std::string& why, bool account) {
       return true;
     };
     if constexpr (d == D_INT) {
-      if (!null_law(std::common_type<int*>{}, "int*")) return false;
-      if (!null_law(std::common_type<std::unique_ptr<int>>{}, "unique_ptr<int>")) return false;
-      if (!null_law(std::common_type<std::shared_ptr<int>>{}, "shared_ptr<int>")) return false;
+      if (!null_law(static_cast<int*>(nullptr), "int*")) return false;
+      if (!null_law(std::unique_ptr<int>(), "unique_ptr<int>")) return false;
+      if (!null_law(std::shared_ptr<int>(), "shared_ptr<int>")) return false;
     } else {
-      if (!null_law(std::common_type<S*>{}, "S*")) return false;
+      if (!null_law(static_cast<S*>(nullptr), "S*")) return false;
     }
   }
 
@@ -928,7 +983,7 @@ Node gen_node(Dom d, int depth_left, bool safe, GenCtx& g) {
   }
   n.k = w < 50 ? K_ANYOF : w < 75 ? K_ALLOF : K_NONEOF;
   n.typed = pick(0, 2) != 0;
-  int arity = 1 + pick(0, 4);
+  int arity = 1 + pick(0, static_cast<int>(max_arity(d)));
   bool kid_safe = safe;
   if (d == D_CSTR && !safe && pick(0, 100) < 60) {
     // the documented null-guard shapes: all_of(ne(nullptr), ...), any_of(nullptr, ...), none_of(nullptr, ...)
